@@ -229,7 +229,10 @@ fn case(tier: Tier, rng: &mut Rng, rep: &mut Report) {
                             }
                             steps += 1;
                         }
-                        if cur != root || !rel_close(acc, dist[*v], 1e-9, 1e-12) {
+                        // a floored edge is charged 1e-10 up to the rounding of (access share) + (floored total - access
+                        // share), a few per cent of the floor when the access share is large (offset rates): allow a tenth
+                        // of the floor per tree edge on top of the relative tolerance
+                        if cur != root || !rel_close(acc, dist[*v], 1e-9, 1e-12 + 1e-11 * steps as f64) {
                             bad = Some((*v, acc, dist[*v]));
                             break;
                         }
